@@ -68,3 +68,166 @@ m("C17", "translation_validation",
   "Lean 4 laws of the reference model + differential execution against the host file system", "§6 C17",
   ["list_directory not modelled (shells out to ls)", "file_size of a directory is host dependent: not compared",
    "POSIX host semantics (tmpfs/ext4 under /tmp)"])
+m("C11", "proof",
+  "differential on the implementation: (a) 1-2 history transactions on a source/destination pair (random "
+  "modes, fault plans, fault tables, cancel requests; unfinished ones ended with reset()) followed by a "
+  "follow-up transaction, whose complete canonical output lines are compared — sequence number renamed, "
+  "filestore reduced to the follow-up's destination — with the same follow-up on freshly constructed handlers; "
+  "(b) the follow-up while a sibling handler pair of the same process is mid-transaction with lost segments "
+  "outstanding vs. alone. All sessions also replayed on the model.",
+  "Props/C11.lean proves over the models: every transaction end installs a parameter block equal to a new "
+  "handler's (C11_dest_reset_fresh, C11_source_reset_fresh), a transaction start at the receiver re-creates "
+  "it regardless of what was left (C11_dest_start_fresh, C11_dest_start_transaction_fresh), an accepted put "
+  "request on an idle sender yields a state whose transaction-relevant part is a function of request and "
+  "configuration alone (C11_source_put_forgets_history), and an operation on one handler of a world leaves "
+  "every other handler object untouched — no field is shared (C11_instances_independent). The executable "
+  "consequence (same observable trace) is checked differentially on implementation and model.",
+  "Lean 4 theorems (reset/fresh-block, frame over World) + differential fresh-vs-reused/concurrent", "§6 C11",
+  ["observable equality is checked, not proved, for whole follow-up transactions (reuse_same_trace of DESIGN §6)"])
+m("C16", "translation_validation",
+  "end-to-end transfers (all modes, closure, checksum types, sizes, fault plans with retransmission, cancel "
+  "requests) executed twice on the implementation — on a purely in-memory VirtualFilestore whose paths do not "
+  "exist on the host, under an audit of builtins.open/io.open/os.{stat,lstat,open,remove,unlink,mkdir,rmdir,"
+  "rename,replace,truncate,listdir,scandir,access} for the script's paths, and on NativeFilestore in a sandbox "
+  "— comparing every canonical output line; the in-memory run is also replayed on the model",
+  "Props/C16.lean proves over the models that the sender never changes the filestore in any call sequence "
+  "(C16_source_read_only, from generated frame lemmas for all 38 sender methods) and that the receiver touches "
+  "it at three sites only, each at the resolved destination path (C05 theorems, C16_dest_no_access_before_"
+  "metadata). Whether the Python handlers bypass the filestore object they were given cannot be expressed in any "
+  "model of the handlers; that is decided by the differential in-memory/native execution with host audit.",
+  "Lean 4 frame theorems over the models + differential in-memory vs native execution with host-access audit",
+  "§6 C16",
+  ["the audit watches the script's paths only; access to unrelated host paths (imports, logging) is not flagged",
+   "MemFilestore (harness) mirrors NativeFilestore for the operations the handlers use; it is exercised against "
+   "the same sessions as the native one"])
+m("C01", "proof",
+  "end-to-end sessions with 0..5 link faults (drop, duplicate, delay/reorder, File Data bit flips) and "
+  "rejected filestore writes, random pacing, all modes/closure/NAK modes, CRC-32/CRC-32C (null and modular: "
+  "loss/duplication/reordering only, acknowledged mode); destination sessions fed by an honest scripted "
+  "sender with arbitrary extra and corrupt File Data; oracle: at every success report (receiver indication, "
+  "Finished PDU, sender indication with closure/acknowledged) the destination file read from the trace equals "
+  "the source file or collides under the negotiated checksum",
+  "Props/C01.lean: a success report carries the stored finished parameters; the delivery code can become "
+  "Data-complete only through _checksum_verify — every other receiver method preserves 'not complete' from "
+  "every state (C01_only_verification_completes, generated frame lemmas); _checksum_verify returns true iff "
+  "the filestore checksum of the first `progress` bytes equals the EOF checksum (or null/metadata-only) and "
+  "changes neither file nor progress (C01_verify_sound, C01_verify_failure_keeps_incomplete); that checksum is "
+  "the CRC of exactly those bytes (C01_verified_is_crc via C09); the sender's report copies the Finished PDU "
+  "(C01_source_report_copies_pdu). The temporal glue between verification and report (same call, no write in "
+  "between) is not one theorem; it is covered by the fault-schedule exploration on implementation and model.",
+  "Lean 4 theorems (frame invariant + verification contract) + differential correspondence + fault-schedule search",
+  "§6 C01", ["collision = equal negotiated checksum of unequal contents (accepted by the property)"])
+m("C02", "proof",
+  "fault-free end-to-end sessions over the configuration cross product (mode x closure x checksum type x CRC "
+  "flag x id/sequence widths x NAK mode x segment length x max packet length x destination as file/directory x "
+  "existing/not) with randomised fair pacing (idle calls, skipped turns, held deliveries, batch sizes); the "
+  "clock never advances while PDUs are in flight",
+  "Props/C02.lean proves C02_unack_delivery for every file content/size, every cutting into non-empty "
+  "consecutive pieces (= the sender's tiles for any segment length, C07_stream_tiles), every admissible header, "
+  "checksum type and indication setting: Metadata, tiles in order, EOF — one call each — leave the receiver "
+  "idle, the destination file equal to the source file, every other path untouched, exactly one successful "
+  "Transaction-Finished, nothing queued, no fault callback, no exception (induction over the tiles with the "
+  "invariant `Receiving`). Together with C07 (the sender emits exactly that stream) this is the fault-free "
+  "delivery theorem for unacknowledged mode without closure. Acknowledged mode, closure and arbitrary pacing "
+  "are explored (implementation and model), not proved.",
+  "Lean 4 theorem by induction over tiles (composition of C07 and the receiver model) + exploration of pacing",
+  "§6 C02", ["C02_pacing (any fair interleaving) and the acknowledged/closure variants are exploration-level"])
+m("C03", "other",
+  "acknowledged-mode end-to-end sessions with K in 1..3 faults (drop, duplicate, delay/reorder of any PDU in "
+  "either direction) and all expiration limits > K; after the faults the link is quiet and timers keep "
+  "expiring; the harness plays the surrounding entity (acknowledges EOF/Finished of closed transactions)",
+  "Safety under any faults is C01. Props/C03.lean proves every recovery mechanism for all states/inputs "
+  "(duplicate writes idempotent; EOF before Metadata keeps size and checksum; late Metadata keeps the deferred "
+  "procedure running; File Data after EOF without Metadata is ignored) and refers to C04/C06/C08 for NAK "
+  "re-issue, exact servicing and resumption. The liveness claim itself (recovery within the limits) is NOT a "
+  "theorem: it is explored on implementation and model over random <=3-fault schedules.",
+  "Lean 4 mechanism theorems + bounded fault-schedule exploration (liveness not proved)", "§6 C03",
+  ["liveness under an adversarial link is explored, not proved (DESIGN.md §6 C03 stage 4)"])
+m("C04", "proof",
+  "silent-peer scenarios for the three retry procedures with limits 1..4 and intervals 500..2000 ms: calls "
+  "one ms before each expiry (nothing may happen), exactly at it; the awaited ACK after j < N expiries; exact "
+  "count of re-sent PDUs, the expiry at which the limit fault fires, the cancel exchange and the abandon at 2N",
+  "Props/C04.lean proves for each procedure and every state: no activity before the expiry; an expiry below "
+  "the limit re-sends exactly one EOF / one Finished / the whole NAK sequence and adds one to the counter; an "
+  "expiry at the limit declares the limit fault and re-sends nothing; progress resets; a limit fault during the "
+  "cancel exchange abandons (with C14); C04_expiry_count: the fault falls on expiry number limit - c, for a "
+  "fresh procedure the limit-th. The bound of 2N expiries composes these lemmas (C04_silent_peer_bound).",
+  "Lean 4 theorems (one-step contracts of the retry procedures + counting lemma) + scenario enumeration",
+  "§6 C04", ["the iteration over expiries is composed from one-step theorems and a counting lemma"])
+m("C05", "proof",
+  "destination sessions with arbitrary File Data (any offsets, overlaps, duplicates, beyond EOF, before "
+  "Metadata), EOFs anywhere, cancel requests, rejected writes, several transactions per handler, random fault "
+  "tables; faulty end-to-end sessions; oracle: an independent write-model of the accepted File Data vs. the "
+  "filestore snapshot after every call, and no other path touched",
+  "Props/C05.lean: all receiver methods except three sites leave the filestore unchanged from every state "
+  "(C05_no_write_outside_three_sites, C05_fd_before_metadata_not_written; generated frame lemmas); Metadata "
+  "resolves the path and leaves an empty file, nothing else changes (C05_metadata_creates_or_truncates); a File "
+  "Data PDU changes the filestore not at all or exactly by writeBytes at its offset in the destination file, "
+  "whatever else the call does (C05_file_data_applies_write_model, Hoare-style over the whole _handle_fd_pdu); "
+  "byte-level meaning of writeBytes in C17.",
+  "Lean 4 theorems (frame lemmas + Hoare triple over _handle_fd_pdu) + differential write-model oracle",
+  "§6 C05", ["the ghost-log invariant over whole histories is checked by the oracle, proved per call"])
+m("C06", "proof",
+  "acknowledged-mode destination sessions on grid-segmented files: tiles permuted, lost, duplicated, late; "
+  "Metadata and EOF at any position; immediate and deferred mode; max_packet_len forcing multi-PDU sequences; "
+  "NAK timer expiries; scripted sender answering NAKs; oracle: independent interval model of stored bytes",
+  "Props/C06.lean: the deferred NAK sequence requests exactly (0,0)-iff-metadata-missing followed by the "
+  "tracker's ranges, each once (C06_nak_sequence_exact); each PDU has scope (0, EOF size), 1..m requests and an "
+  "encoded length <= max_packet_len (C06_nak_sequence_pdus, C06_nak_len); nothing missing => no NAK, completion "
+  "(C06_nothing_missing); the immediate NAK requests exactly the gap (C06_immediate_nak, "
+  "C06_no_nak_without_gap). With C18 the tracker denotes exactly the bytes added and not removed. The link "
+  "'tracker = bytes not stored' is explored with the interval oracle, not proved.",
+  "Lean 4 theorems (induction over the request-splitting loop) + interval-model oracle", "§6 C06",
+  ["Inv_trk (tracker = not stored) explored, not proved"])
+m("C10", "proof",
+  "malformed stream: every PDU type with arbitrary field values, ids, widths, directions against both "
+  "handlers in every step reached by interrupted (possibly faulty) transfers; put/cancel requests and time "
+  "steps interleaved; default fault handlers; plus the destination/source/link suites",
+  "Props/C10.lean proves for every state and PDU: the admission checks are side-effect free and a rejected PDU "
+  "leaves the entire handler state unchanged (C10_dest_rejected_pdu_changes_nothing, C10_source_..., via "
+  "ReadOnly combinators); the receiver's packets-ready counter equals the queue length after every call "
+  "sequence (C10_dest_counter_is_queue_length, generated whole-FSM invariant), so the UnretrievedPdus guards "
+  "fire only with PDUs really queued (C10_dest_unretrieved_guard, C10_source_unretrieved_guard). Absence of "
+  "internal errors from every reachable state is NOT proved; it is explored (the model raises at every assert / "
+  "None-dereference site and is tied to the code by correspondence).",
+  "Lean 4 theorems (read-only admission, whole-FSM counter invariant) + malformed-stream exploration", "§6 C10",
+  ["no_internal_error is exploration-level; one listed finding (NAK base larger than max_packet_len)"])
+m("C12", "proof",
+  "cancel requests with right and wrong transaction ids injected at random points of end-to-end sessions and "
+  "of single-handler sessions, all modes/closure/disposition settings; EOF (cancel) PDUs from the scripted sender",
+  "Props/C12.lean proves for every handler state: cancel_request returns false for an idle handler or another "
+  "id and changes nothing, raises with PDUs queued; a matching cancel at the receiver marks the transaction "
+  "cancelled with the local entity as fault location; completion deletes the incomplete file iff disposition-"
+  "on-cancellation and reports exactly the stored parameters, which the Finished PDU repeats; an EOF (cancel) "
+  "finishes with the EOF's condition and the sender as fault location; a matching cancel at the sender queues "
+  "as next PDU the EOF (cancel) with size = progress and the checksum of exactly that prefix, is idle at once "
+  "(unacknowledged) or awaits the ACK; a second cancel abandons.",
+  "Lean 4 theorems (forward simulation of the cancel paths) + differential correspondence", "§6 C12")
+m("C13", "proof",
+  "unacknowledged destination scenarios: EOF ahead of any non-empty subset of tiles, each late tile arriving "
+  "before a chosen check-timer expiry or never, limits 1..4, calls one ms before each expiry; sender closure "
+  "check timer; CRC-32/CRC-32C",
+  "Props/C13.lean proves: EOF with a mismatching file enters check-limit handling (fresh timer, counter 0) "
+  "without finishing (C13_eof_early_waits); nothing before the expiry; at an expiry with the announced checksum "
+  "the transfer completes in that call (C13_expiry_success); otherwise counter+1 / timer restart below the "
+  "limit and Check-limit-reached exactly at counter+1 >= limit, ending incomplete (C13_expiry_retry, "
+  "C13_expiry_limit, C13_limit_reports_incomplete); the sender's check timer (C13_source_closure_timer).",
+  "Lean 4 theorems (one-step contracts) + scenario enumeration", "§6 C13")
+m("C14", "proof",
+  "destination, source and end-to-end sessions with random fault-handler tables (cancel/ignore/abandon/"
+  "suspend for each declarable condition), sethandler ops, faulty links, rejected writes, cancel requests",
+  "Props/C14.lean proves for every state and condition: set_handler refuses exactly the conditions outside the "
+  "table and changes one entry (C14_set_handler, C14_default_table_conditions); ignore/suspend = one callback of "
+  "that kind, nothing else (C14_dest_ignore, C14_source_ignore); cancel = one callback, transaction cancelled "
+  "with that condition (C14_dest_cancel, C14_source_cancel); abandon = one callback, handler idle "
+  "(C14_dest_abandon, C14_source_abandon); the C04 carve-out (C14_*_fault_in_cancel_exchange); no callback "
+  "without a transaction id (C14_*_no_callback_without_tid).",
+  "Lean 4 theorems (dispatch of _declare_fault over the table) + differential correspondence", "§6 C14")
+m("C15", "proof",
+  "all suites with random indication switches (2^4 settings per side), message-to-user lists incl. "
+  "originating-id and proxy-put-response messages, faulty and cancelled transfers",
+  "Props/C15.lean proves gating for EVERY call sequence and every PDU on both sides (C15_dest_gating, "
+  "C15_source_gating: every method of the models preserves 'only enabled indications delivered', generated "
+  "invariants), parameter faithfulness at the emission sites (C15_segment_recv_params, "
+  "C15_finished_matches_pdu) and the originating-id rule (C15_originating_id).",
+  "Lean 4 whole-FSM invariant (generated Preserves lemmas) + differential correspondence", "§6 C15")
